@@ -379,6 +379,46 @@ pub fn split(p: &Program, rgs: &[usize], form: usize, tweak: &Tweak) -> Split
 	Split { files, imports: imports.into_iter().collect(), pubs }
 }
 
+pub const IMPORT_PLACEMENTS: [&str; 4] = ["on top", "at the bottom", "first on top, the others at the bottom", "behind the first declaration"];
+
+/// The module text with its import lines moved.
+pub fn place_imports(text: &str, placement: usize) -> String
+{
+	let lines: Vec<&str> = text.lines().collect();
+	let imports: Vec<&str> = lines.iter().copied().filter(|l| l.starts_with("import \"")).collect();
+	let rest: Vec<&str> = lines.iter().copied().filter(|l| !l.starts_with("import \"")).skip_while(|l| l.is_empty()).collect();
+	if imports.is_empty()
+	{
+		return text.to_string();
+	}
+	let mut out: Vec<&str> = Vec::new();
+	match placement
+	{
+		1 =>
+		{
+			out.extend(rest.iter());
+			out.extend(imports.iter());
+		}
+		2 =>
+		{
+			out.push(imports[0]);
+			out.extend(rest.iter());
+			out.extend(imports[1..].iter());
+		}
+		_ =>
+		{
+			// behind the first declaration: it ends at the first line that is `}` or that ends in `;` at column 0
+			let end = rest.iter().position(|l| *l == "}" || (!l.starts_with('\t') && l.ends_with(';'))).map(|i| i + 1).unwrap_or(rest.len());
+			out.extend(rest[..end].iter());
+			out.extend(imports.iter());
+			out.extend(rest[end..].iter());
+		}
+	}
+	let mut s = out.join("\n");
+	s.push('\n');
+	s
+}
+
 // ---------------------------------------------------------------------------------------------
 // Hand-written families around private and transitively reachable names
 
@@ -847,6 +887,23 @@ pub fn work(spec: &Value, w: &mut WorkerCtx)
 				let what = format!("roots {:?} partition {:?} form '{}'", root_names(p), parts[pi], FORMS[form]);
 				w.result.count(&format!("import pairs: {}", s.imports.len()), 1);
 				explore(&s.files, &Expect::Accept(expected_out(&p.roots)), &format!("split:{}", if form == 0 { "flat" } else { "paths" }), &what, w);
+				// the import lines need not stand on top: the same split with the imports of every
+				// module at the bottom, with all but the first at the bottom, and behind the first
+				// declaration (small programs only)
+				let small = p.units.len() <= if w.tier == "quick" { 4 } else { 5 };
+				if form == 0 && small
+				{
+					for placement in 1..=3
+					{
+						let files: Vec<(String, String)> = s.files.iter().map(|(n, t)| (n.clone(), place_imports(t, placement))).collect();
+						if files == s.files
+						{
+							continue;
+						}
+						w.result.transitions += 1;
+						explore(&files, &Expect::Accept(expected_out(&p.roots)), "split:imports not on top", &format!("{what} imports {}", IMPORT_PLACEMENTS[placement]), w);
+					}
+				}
 			}
 		}
 		"negative" =>
